@@ -54,8 +54,16 @@ def _witness(client, req, resp_headers=None, cl=7):
         c.send_headers(1, req + ([_cl(cl)] if cl is not None else []))
         h2h.pump(c, s)
         me = s
-    me.max_inbound_frame_size = BIG
+    _open_windows(me)
     return me
+
+
+def _open_windows(me):
+    """flow control is not the subject here (C04): make both inbound windows huge"""
+    me.max_inbound_frame_size = BIG
+    A = h2h.Adapter
+    A.set_wm(A.conn_wm(me), INT31, INT31, 0)
+    A.set_wm(A.stream_wm(me, 1), INT31, INT31, 0)
 
 
 def _inject(me, with_cl=True):
@@ -78,14 +86,14 @@ def _refused(out, exc, tag):
           fr[0].error_code == ErrorCodes.PROTOCOL_ERROR, tag + '-goaway', None)
 
 
-def _data_frame(padded):
+def _data_frame(padded, force_end=False):
     data = sym_bytes('n', 0, BIG - 300, default=7)
     f = hf.DataFrame(1)
     f.data = data
     if padded:
         f.flags.add('PADDED')
         f.pad_length = sym_int('pad', 0, 255, default=4)
-    end = sym_bool('end')
+    end = True if force_end else sym_bool('end')
     if end:
         f.flags.add('END_STREAM')
     return f, len(data), end
@@ -192,9 +200,8 @@ def h_no_content(kind):
                 hdrs = [(b':status', b'200')]
             s.send_headers(1, hdrs)
             h2h.pump(c, s)
-        c.max_inbound_frame_size = BIG
-        f, n, end = _data_frame(True)
-        assume_z(end)
+        _open_windows(c)
+        f, n, end = _data_frame(True, force_end=True)
         out = models.Out(c)
         try:
             h2h.deliver(c, [f])
